@@ -104,20 +104,26 @@ class CallMixin:
     # ------------------------------------------------------------ quantifiers over generator expressions
     def quantified(self, kind, g, st):
         if not self.spec:
-            raise Unsupported("all/any/sum over a generator in code (line %d)" % g.lineno)
+            return self.quantified_in_code(kind, g, st)
         # a leading generator over a concrete list/tuple is expanded into a conjunction / disjunction
         first = g.generators[0]
         if not (isinstance(first.iter, ast.Call) and isinstance(first.iter.func, ast.Name) and first.iter.func.id == "range"):
             it0 = self.eval(first.iter, st)
-            items = it0.items if isinstance(it0, SList) else it0
+            items = it0.items if isinstance(it0, SList) else (list(it0.d.keys()) if type(it0).__name__ == "_Map" else it0)
             if isinstance(items, (list, tuple)) and not (items and items[0] == "range" and isinstance(items, tuple)):
-                if kind == "sum" or first.ifs or not isinstance(first.target, ast.Name):
+                if kind == "sum" or not isinstance(first.target, ast.Name):
                     raise Unsupported("generator form (line %d)" % g.lineno)
                 parts = []
                 saved = st.vars.get(first.target.id, None)
                 had = first.target.id in st.vars
                 for x in items:
                     st.vars[first.target.id] = x
+                    if first.ifs:   # filters over a concrete iterable must be decided concretely
+                        keep = [as_bool(self.eval(c_, st)) for c_ in first.ifs]
+                        if not all(isinstance(k_, bool) for k_ in keep):
+                            raise Unsupported("symbolic filter over a concrete iterable (line %d)" % g.lineno)
+                        if not all(keep):
+                            continue
                     if len(g.generators) > 1:
                         sub = ast.GeneratorExp(elt=g.elt, generators=g.generators[1:])
                         ast.copy_location(sub, g)
@@ -717,8 +723,107 @@ class CallMixin:
     def b_tok(self, args, kw, st, n):
         return args[0]
 
+    def quantified_in_code(self, kind, g, st):
+        """all(...) / any(...) over a generator in CODE: a concrete iterable is expanded; over the elements of a 1-D array only a
+        body that the element's TYPE decides (isinstance tests) is supported: all -> body or the array is empty, any -> body and
+        the array is not empty"""
+        if kind == "sum" or len(g.generators) != 1 or g.generators[0].ifs or not isinstance(g.generators[0].target, ast.Name):
+            raise Unsupported("all/any/sum over a generator in code (line %d)" % g.lineno)
+        gen = g.generators[0]
+        it = self.eval(gen.iter, st)
+        name = gen.target.id
+        saved, had = st.vars.get(name), name in st.vars
+        try:
+            if type(it).__name__ in ("SArr", "LArr"):
+                from .lazy import shape_of, elem
+                shp = shape_of(it)
+                if len(shp) != 1:
+                    raise Unsupported("generator over a %d-D array in code (line %d)" % (len(shp), g.lineno))
+                st.vars[name] = elem(it, [z3.Int(fresh_name("gi"))], st)
+                body = as_bool(self.eval(g.elt, st))
+                if not isinstance(body, bool):
+                    raise Unsupported("generator over array elements with a value-dependent body in code (line %d)" % g.lineno)
+                nz = to_int(shp[0])
+                if kind == "all":
+                    return True if body else simp_bool(zi(nz) == 0)
+                return simp_bool(zi(nz) > 0) if body else False
+            items = it.items if isinstance(it, SList) else (list(it.d.keys()) if type(it).__name__ == "_Map" else it)
+            if not isinstance(items, (list, tuple)) or (items and isinstance(items, tuple) and items[0] == "range"):
+                raise Unsupported("all/any over %r in code (line %d)" % (type(it), g.lineno))
+            parts = []
+            for x in items:
+                st.vars[name] = x
+                parts.append(as_bool(self.eval(g.elt, st)))
+            return band(*parts) if kind == "all" else bor(*parts)
+        finally:
+            if had:
+                st.vars[name] = saved
+            else:
+                st.vars.pop(name, None)
+
+    def b_set(self, args, kw, st, n):
+        if not args:
+            return set()
+        v = args[0]
+        items = list(v.d.keys()) if type(v).__name__ == "_Map" else (v.items if isinstance(v, SList) else v)
+        if isinstance(items, dict):
+            items = list(items.keys())
+        if not isinstance(items, (list, tuple, set, frozenset)) or not all(isinstance(x_, (str, int)) for x_ in items):
+            raise Unsupported("set(...) of %r (line %d)" % (type(v), n.lineno))
+        return set(items)
+
+    def b_filter(self, args, kw, st, n):
+        """filter(lambda x: <concrete test>, <concrete iterable or dataset>) -> list"""
+        fn, it = args
+        if type(it).__name__ == "SDs":
+            items = list(it.vars.keys())          # iterating a Dataset yields its data variable names
+        elif type(it).__name__ == "_Map":
+            items = list(it.d.keys())
+        else:
+            items = it.items if isinstance(it, SList) else it
+        if not (isinstance(fn, tuple) and fn and fn[0] == "lambda") or not isinstance(items, (list, tuple)):
+            raise Unsupported("filter form (line %d)" % n.lineno)
+        lam = fn[1]
+        out = []
+        for x in items:
+            env = st.fork()
+            env.vars = dict(fn[2])
+            env.vars[lam.args.args[0].arg] = x
+            keep = as_bool(self.eval(lam.body, env))
+            if not isinstance(keep, bool):
+                raise Unsupported("filter with a symbolic test (line %d)" % n.lineno)
+            if keep:
+                out.append(x)
+        return SList(out)
+
     def b_isinstance(self, args, kw, st, n):
-        raise Unsupported("isinstance (line %d)" % n.lineno)
+        """isinstance(v, T) for values whose python type the model knows (lists, strings, None, ints, floats, dicts)"""
+        v, t = args
+        names = []
+        for x in (t if isinstance(t, (tuple, list)) else t.items if isinstance(t, SList) else [t]):
+            nm = getattr(x, "name", None) or getattr(x, "target", None)
+            if not isinstance(nm, str):
+                raise Unsupported("isinstance against %r (line %d)" % (x, n.lineno))
+            names.append(nm.split(".")[-1])
+        if isinstance(v, SList):
+            ty = "list"
+        elif isinstance(v, (str, SStr)):
+            ty = "str"
+        elif v is None:
+            ty = "NoneType"
+        elif isinstance(v, bool) or (z3.is_expr(v) and z3.is_bool(v)):
+            ty = "bool"
+        elif isinstance(v, int) or (z3.is_expr(v) and z3.is_int(v)):
+            ty = "int"
+        elif isinstance(v, (float, SFloat)):
+            ty = "float"
+        elif isinstance(v, dict):
+            ty = "dict"
+        elif isinstance(v, tuple) and not (v and isinstance(v[0], str)):
+            ty = "tuple"
+        else:
+            raise Unsupported("isinstance of %r (line %d)" % (type(v), n.lineno))
+        return ty in names or (ty == "bool" and "int" in names) or (ty == "dict" and "Mapping" in names)
 
     def b_literal_eval(self, args, kw, st, n):
         raise Unsupported("literal_eval")
